@@ -153,4 +153,75 @@ def force (T : Tables) (maxLen : Nat) (src : List UInt8) : List UInt8 := (append
 def forceStr (T : Tables) (maxLen : Nat) (src : List UInt8) : List UInt8 :=
   if valid T maxLen src then src else force T maxLen src
 
+/-! ### in-place normalisation: ForceValidStringValueBytes(b) = appendValidStringValue(b[:0], b, …, true)
+
+  dst and src are two slice headers over ONE backing array.  The model below is at the level of that array: every
+  read of `src[r:]` looks at the array as it is at that moment, every write says where it lands.
+  `WriteMode.buffered` is the code as it is (the slow path assembles the result in the local `buf` and touches the
+  shared array only in the final `append(dst, buf[:w]...)`); `WriteMode.direct` is the variant that appends every
+  rune straight to dst — kept to show why the buffer is needed. -/
+
+inductive WriteMode
+  | buffered
+  | direct
+  deriving DecidableEq, Repr
+
+structure IPState where
+  arr      : List UInt8   -- the backing array b[:cap(b)]
+  detached : Bool         -- direct mode: append had to reallocate, dst no longer aliases the array
+  out      : List UInt8   -- buffered: buf[:w]; direct: the contents of dst
+  prev     : Bool         -- previousSpace
+  deriving DecidableEq, Repr
+
+/-- overwrite `arr[off : off+len(e)]` (the caller guarantees it fits) -/
+def poke (arr : List UInt8) (off : Nat) (e : List UInt8) : List UInt8 :=
+  arr.take off ++ e ++ arr.drop (off + e.length)
+
+/-- one emission: where the bytes of a rune go -/
+def emitIP (mode : WriteMode) (st : IPState) (e : List UInt8) (sp : Bool) : IPState :=
+  match mode with
+  | .buffered => { st with out := st.out ++ e, prev := sp }
+  | .direct =>
+    if !st.detached && decide (st.out.length + e.length ≤ st.arr.length) then
+      { st with arr := poke st.arr st.out.length e, out := st.out ++ e, prev := sp }
+    else { st with detached := true, out := st.out ++ e, prev := sp }
+
+/-- the slow-path loop over the shared array: `n` = len(src), `r` = read index -/
+def slowLoopIP (mode : WriteMode) (T : Tables) (maxLen : Nat) : Nat → Nat → Nat → IPState → IPState
+  | 0, _, _, st => st
+  | f + 1, n, r, st =>
+    match (st.arr.take n).drop r with
+    | [] => st
+    | c :: rest =>
+      let d := decodeRune (c :: rest)
+      match classify T d.1 st.prev with
+      | none => slowLoopIP mode T maxLen f n (r + d.2) st
+      | some (ru, sp) =>
+        if st.out.length + (encodeRune ru).length > maxLen then st
+        else slowLoopIP mode T maxLen f n (r + d.2) (emitIP mode st (encodeRune ru) sp)
+
+structure IPResult where
+  value   : List UInt8   -- the returned slice
+  arr     : List UInt8   -- the caller's backing array afterwards
+  aliased : Bool         -- the returned slice still points into the caller's array
+  deriving DecidableEq, Repr
+
+/-- `append(b[:0], v...)` on the caller's array: in place when it fits the capacity, a fresh array otherwise -/
+def appendAtZero (arr v : List UInt8) : IPResult :=
+  if v.length ≤ arr.length then { value := v, arr := poke arr 0 v, aliased := true }
+  else { value := v, arr := arr, aliased := false }
+
+/-- ForceValidStringValueBytes on a slice of length `n` whose backing array is `arr` (n ≤ arr.length = cap) -/
+def forceInPlace (mode : WriteMode) (T : Tables) (maxLen : Nat) (arr : List UInt8) (n : Nat) : IPResult :=
+  let src := arr.take n
+  if src.isEmpty then { value := [], arr := arr, aliased := true }
+  else if decide (src.length ≤ maxLen) && fastOk src then appendAtZero arr src   -- append(dst, src...): memmove onto itself
+  else
+    let st := slowLoopIP mode T maxLen (n + 1) n 0 { arr := arr, detached := false, out := [], prev := true }
+    match mode with
+    | .buffered => appendAtZero st.arr (trimLast (st.out, st.prev))
+    | .direct =>
+      -- `dst = dst[:len(dst)-1]` for a trailing space; the bytes are already in place
+      { value := trimLast (st.out, st.prev), arr := st.arr, aliased := !st.detached }
+
 end SH.Norm
